@@ -236,11 +236,39 @@ def resolve(fn, roles, safe=None):
     return out
 
 
-def canonicalise(mod_text, fn, roles):
+def renamable_ast(fn):
+    """Like renamable(), computed on the syntax tree itself (for functions with helper bodies expanded into them)."""
+    params = {a.arg for a in fn.args.args + fn.args.kwonlyargs + fn.args.posonlyargs}
+    for x in (fn.args.vararg, fn.args.kwarg):
+        if x is not None:
+            params.add(x.arg)
+    own, nested, special = set(), set(), set()
+    for n in _own_nodes(fn):
+        if isinstance(n, ast.Name) and isinstance(n.ctx, ast.Store):
+            own.add(n.id)
+        elif isinstance(n, (ast.Global, ast.Nonlocal)):
+            special |= set(n.names)
+        elif isinstance(n, (ast.Import, ast.ImportFrom)):
+            special |= {(a.asname or a.name).split(".")[0] for a in n.names}
+        elif isinstance(n, ast.ExceptHandler) and n.name:
+            own.add(n.name)
+    for n in ast.walk(fn):
+        if n is not fn and isinstance(n, (ast.FunctionDef, ast.AsyncFunctionDef, ast.Lambda, ast.ClassDef, ast.ListComp, ast.SetComp, ast.DictComp, ast.GeneratorExp)):
+            if hasattr(n, "name"):
+                nested.add(n.name)
+            for m in ast.walk(n):
+                if isinstance(m, ast.Name) and isinstance(m.ctx, ast.Store):
+                    nested.add(m.id)
+                elif isinstance(m, ast.arg):
+                    nested.add(m.arg)
+    return own - params - special - nested
+
+
+def canonicalise(mod_text, fn, roles, synthetic=False):
     """(function node with the role players renamed to their canonical names, {canonical: actual})."""
     if not roles:
         return fn, {}
-    safe = renamable(mod_text, fn)
+    safe = renamable_ast(fn) if synthetic else renamable(mod_text, fn)
     if safe is None:
         return fn, {}
     found = resolve(fn, roles, safe)
